@@ -1,7 +1,28 @@
 (** * C18 — Simplex solvers return the minimum-norm point of the convex hull of 1-4 points.
-    Theorems only; proofs are in Checker/Kkt.v, Proofs/Simplex*.v; model in Model/Simplex.v. *)
-From Coq Require Import List QArith Reals.
-From D3 Require Import Base.Ops Base.Vec Base.RVec Spec.Convex Spec.ConvexHull Checker.Kkt.
+    Theorems only; proofs are in Checker/Kkt.v, Checker/KktZ.v, Proofs/Simplex*.v;
+    models in Model/Simplex.v (Jolt) and Model/SimplexOrig.v (original GJK, backup procedure).
+
+    What is proved about the MODELS (exact arithmetic):
+    - Jolt, 2 points: [C18_jolt_line_correct] -- all real inputs, every arm;
+    - Jolt, 3 points, non-degenerate branch: [C18_jolt_triangle_correct] -- all real inputs, all 7 arms;
+    - original, 1-4 points: [C18_orig_backup_valid] -- all real inputs: weights, order, subset;
+    - both solvers, every configuration of 1-4 points with coordinates in {-1,0,1}
+      (551 880 configurations, all degeneracies and region boundaries): exact optimum, subset,
+      weights: [C18_jolt_lattice_exact], [C18_jolt_lattice4_exact], [C18_orig_lattice_exact],
+      [C18_orig_lattice4_exact];
+    - the property is FALSE for both models on small well-conditioned tetrahedra (absolute
+      thresholds): [C18_orig_backup_refuted], [C18_jolt_refuted].
+    Missing (not proved for all real inputs): Jolt degenerate-triangle arm beyond "best of three
+    edges up to EPSILON" and the Jolt tetrahedron; global optimality of the original solver's
+    result (Johnson's theorem: the carrier of the optimum has all cofactors positive, and a
+    candidate with all cofactors positive is the projection on its affine hull).
+    What judges the IMPLEMENTATION on every generated input: the certificates, whose soundness is
+    [C18_kkt_cert_sound], [C18_cert_z_sound], [C18_cert_z_min_norm], [C18_bary_z_sound]. *)
+From Coq Require Import List NArith ZArith QArith Reals.
+From D3 Require Import Base.Ops Base.Vec Base.RVec Spec.Convex Spec.ConvexHull
+  Model.Simplex Model.SimplexOrig Model.SimplexRun Checker.Kkt Checker.KktZ
+  Proofs.SimplexLine Proofs.SimplexTriangle Proofs.SimplexOrig Proofs.SimplexLattice
+  Proofs.SimplexLattice4 Proofs.SimplexRefuted.
 Import ListNotations.
 Local Open Scope R_scope.
 
@@ -14,3 +35,135 @@ Theorem C18_kkt_cert_sound : forall Y p subset lam tau,
     forall x, conv_hull (map Q2V Y) x -> dot (Q2V p) (Q2V p) <= dot x x + 2 * Q2R tau.
 Proof. exact kkt_cert_sound. Qed.
 Print Assumptions C18_kkt_cert_sound.
+
+Example C18_kkt_cert_nonvacuous :
+  kkt_cert [V 1 1 0; V 1 (-1) 0; V 3 0 2]%Q (V 1 0 0) [0; 1]%nat [1 # 2; 1 # 2]%Q 0 = true.
+Proof. vm_compute. reflexivity. Qed.
+
+(** the integer certificate evaluated by the check: for the real configuration [s * Y]
+    (the harness scales binary64 data by [1/s = 2^N]) and tolerance [e = s * en / ed] *)
+Theorem C18_cert_z_sound : forall Y p sub Wp qs Wq T en ed,
+  c18_z Y p sub Wp qs Wq T en ed = (true, true, true) ->
+  forall s, 0 < s ->
+  let e := s * (IZR en / IZR ed) in
+  (forall x, conv_hull (map (sZ2V s) Y) x -> norm (sZ2V s p) <= norm x + e) /\
+  (exists ps z, zselect Y sub = Some ps /\ incl ps Y /\ conv_hull (map (sZ2V s) ps) z /\
+                conv_hull (map (sZ2V s) Y) z /\ norm (vsub (sZ2V s p) z) <= e).
+Proof. exact c18_z_sound. Qed.
+Print Assumptions C18_cert_z_sound.
+
+Theorem C18_cert_z_min_norm : forall Y p sub Wp qs Wq T en ed,
+  c18_z Y p sub Wp qs Wq T en ed = (true, true, true) ->
+  forall s, 0 < s -> forall m, is_min_norm (map (sZ2V s) Y) m ->
+  Rabs (norm (sZ2V s p) - norm m) <= s * (IZR en / IZR ed).
+Proof. exact c18_z_min_norm. Qed.
+Print Assumptions C18_cert_z_min_norm.
+
+Example C18_cert_z_nonvacuous :
+  c18_z [V 2 2 0; V 2 (-2) 0; V 6 0 4]%Z (V 2 0 0)%Z [0; 1]%nat [1; 1]%Z [0; 1]%nat [3; 3]%Z 0 1 1000
+  = (true, true, true).
+Proof. vm_compute. reflexivity. Qed.
+
+Theorem C18_bary_z_sound : forall Y p sub Wb Db n1 d1 en ed,
+  bary_z Y p sub Wb Db n1 d1 en ed = true -> (0 <= en)%Z -> (0 < ed)%Z ->
+  exists ps, zselect Y sub = Some ps /\ length Wb = length ps /\
+    let w := wscale (/ IZR Db) (map IZR Wb) in
+    Forall (fun l => 0 <= l) w /\
+    Rabs (sum w - 1) <= IZR n1 / IZR d1 /\
+    norm (vsub (Z2V p) (comb w (map Z2V ps))) <= IZR en / IZR ed.
+Proof. exact bary_z_sound. Qed.
+Print Assumptions C18_bary_z_sound.
+
+(** ** Jolt solver: two points, all real inputs, every arm *)
+Theorem C18_jolt_line_correct : forall a b : V3R,
+  let p := fst (@closest_point_line R ROps a b) in
+  let s := snd (@closest_point_line R ROps a b) in
+  (s = 1%N \/ s = 2%N \/ s = 3%N) /\
+  conv_hull (update_simplex_y [a; b] 2 s) p /\
+  conv_hull [a; b] p /\
+  (eps * eps <= dot (vsub b a) (vsub b a) -> is_min_norm [a; b] p) /\
+  (forall x, conv_hull [a; b] x -> norm p <= norm x + eps).
+Proof. exact jolt_line_correct. Qed.
+Print Assumptions C18_jolt_line_correct.
+
+(** the degenerate arm (points closer than EPSILON) is within EPSILON of optimal, and not better *)
+Theorem C18_jolt_line_degenerate_not_exact_refuted :
+  exists a b : V3R,
+    let p := fst (@closest_point_line R ROps a b) in
+    exists x, conv_hull [a; b] x /\ norm x < norm p.
+Proof. exact line_degenerate_not_exact. Qed.
+Print Assumptions C18_jolt_line_degenerate_not_exact_refuted.
+
+(** ** Jolt solver: three points, non-degenerate branch, all real inputs, all seven Voronoi arms *)
+Theorem C18_jolt_triangle_correct : forall a b c : V3R,
+  eps * eps <= dot (cross (vsub b a) (vsub c a)) (cross (vsub b a) (vsub c a)) ->
+  let r := @closest_point_triangle R ROps a b c in
+  tri_set_ok (snd r) /\
+  conv_hull (update_simplex_y [a; b; c] 3 (snd r)) (fst r) /\
+  is_min_norm [a; b; c] (fst r).
+Proof. exact jolt_triangle_correct. Qed.
+Print Assumptions C18_jolt_triangle_correct.
+
+Example C18_jolt_triangle_nonvacuous :
+  eps * eps <= dot (cross (vsub (V 0 1 0) (V 1 0 0)) (vsub (V 0 0 1) (V 1 0 0)))
+                   (cross (vsub (V 0 1 0) (V 1 0 0)) (vsub (V 0 0 1) (V 1 0 0))).
+Proof. rewrite eps_val. vunfold. cbn [vx vy vz]. lra. Qed.
+
+(** ** original solver's backup procedure: all real inputs, 1-4 points: the returned weights are
+       non-negative, sum to 1, reproduce the returned point from the selected points in the
+       returned order; indices distinct and in range; squared distance = |point|^2 *)
+Theorem C18_orig_backup_valid : forall (Y : list V3R) r,
+  @backup_procedure R ROps Y = Some r ->
+  sol_valid Y (b_sol r) (b_ord r) /\
+  conv_hull (map (pt Y) (b_ord r)) (s_v (b_sol r)) /\ conv_hull Y (s_v (b_sol r)).
+Proof. intros Y r H. split; [exact (backup_valid Y r H)|exact (backup_in_hull Y r H)]. Qed.
+Print Assumptions C18_orig_backup_valid.
+
+Example C18_orig_backup_nonvacuous :
+  exists r, @backup_procedure R ROps [V 1 0 0; V 0 1 0; V 0 0 1; V 1 1 1] = Some r.
+Proof. eexists. reflexivity. Qed.
+
+(** ** finite-domain theorems, checked inside Coq: every configuration of 1-4 points with
+       coordinates in {-1, 0, 1}; models run in exact rational arithmetic *)
+Theorem C18_jolt_lattice_exact : forall k Y, (1 <= k <= 3)%nat -> In Y (configs k) -> jolt_exact Y.
+Proof. exact jolt_lattice_exact. Qed.
+Print Assumptions C18_jolt_lattice_exact.
+
+Theorem C18_jolt_lattice4_exact : forall Y, In Y (configs 4) -> jolt_exact Y.
+Proof. exact jolt_lattice4_exact. Qed.
+Print Assumptions C18_jolt_lattice4_exact.
+
+Theorem C18_orig_lattice_exact : forall k Y, (1 <= k <= 3)%nat -> In Y (configs k) -> orig_exact Y.
+Proof. exact orig_lattice_exact. Qed.
+Print Assumptions C18_orig_lattice_exact.
+
+Theorem C18_orig_lattice4_exact : forall Y, In Y (configs 4) -> orig_exact Y.
+Proof. exact orig_lattice4_exact. Qed.
+Print Assumptions C18_orig_lattice4_exact.
+
+(** membership in [configs k] means what it should *)
+Theorem C18_configs_spec : forall k Y,
+  In Y (configs k) <->
+  length Y = k /\ Forall (fun p => In (vx p) lat1 /\ In (vy p) lat1 /\ In (vz p) lat1) Y.
+Proof.
+  intros k Y. rewrite configs_spec. split; intros [H1 H2]; split; auto;
+    (eapply Forall_impl; [|exact H2]); intros p; apply lattice_pts_spec.
+Qed.
+Print Assumptions C18_configs_spec.
+
+Example C18_lattice_nonvacuous :
+  In [V (-1) 0 1; V 0 0 0; V 1 0 (-1)]%Q (configs 3) /\ In [V 1 1 1; V 1 1 1]%Q (configs 2).
+Proof. exact lattice_nonvacuous. Qed.
+
+(** ** the property is false for both models on small tetrahedra around the origin *)
+Theorem C18_orig_backup_refuted :
+  exists Y p w ord,
+    orig_q Y = Some (p, w, ord) /\ conv_hull (map Q2V Y) vzero /\ ~ is_min_norm (map Q2V Y) (Q2V p).
+Proof. exact orig_backup_refuted. Qed.
+Print Assumptions C18_orig_backup_refuted.
+
+Theorem C18_jolt_refuted :
+  exists Y p s,
+    jolt_q 4 Y = Some (p, s) /\ conv_hull (map Q2V Y) vzero /\ ~ is_min_norm (map Q2V Y) (Q2V p).
+Proof. exact jolt_refuted. Qed.
+Print Assumptions C18_jolt_refuted.
